@@ -53,7 +53,14 @@ func named(t *TypeDef) map[string]any {
 	return map[string]any{"name": t.Name, "namespace": t.Namespace, "sourceFile": "verif-corpus", "doc": ""}
 }
 
-func (s *Schema) ManifestV2() ([]byte, error) {
+// ManifestRoot is the manifest in the shape the root-module (v1) generator expects: the Java front end of that generation
+// flattens included records, listing every inherited field in the including record with includedFrom = the record that
+// declares it.
+func (s *Schema) ManifestRoot() ([]byte, error) { return s.manifest(true) }
+
+func (s *Schema) ManifestV2() ([]byte, error) { return s.manifest(false) }
+
+func (s *Schema) manifest(flatten bool) ([]byte, error) {
 	var types []any
 	for _, t := range s.Types {
 		n := named(t)
@@ -64,6 +71,21 @@ func (s *Schema) ManifestV2() ([]byte, error) {
 				incs = append(incs, ident(i))
 			}
 			fields := []any{}
+			if flatten {
+				var inherited func(td *TypeDef)
+				inherited = func(td *TypeDef) {
+					for _, i := range td.Includes {
+						itd := s.Lookup(i)
+						inherited(itd)
+						for _, f := range itd.Fields {
+							fj := fieldJSON(f)
+							fj["includedFrom"] = ident(i)
+							fields = append(fields, fj)
+						}
+					}
+				}
+				inherited(t)
+			}
 			for _, f := range t.Fields {
 				fields = append(fields, fieldJSON(f))
 			}
@@ -202,6 +224,70 @@ func (s *Schema) RegistrySource(pkgName string) string {
 	b.WriteString(")\n\nvar _ = restli.NewServer\nvar _ restlicodec.PathSpec\n\n")
 	b.WriteString(body.String())
 	return b.String()
+}
+
+// RegistrySourceRoot is the registry for bindings written by the root-module (v1) generator: types and default-value
+// constructors only (the resource API of that generation is not driven through the registry).
+func (s *Schema) RegistrySourceRoot(pkgName string) string {
+	var b strings.Builder
+	imports := map[string]string{}
+	alias := func(path string) string {
+		if a, ok := imports[path]; ok {
+			return a
+		}
+		a := fmt.Sprintf("p%d", len(imports))
+		imports[path] = a
+		return a
+	}
+	var body strings.Builder
+	body.WriteString("var Types = map[string]reflect.Type{\n")
+	for _, t := range s.Types {
+		a := alias(s.GoPackagePath(t.Namespace))
+		fmt.Fprintf(&body, "\t%q: reflect.TypeOf((*%s.%s)(nil)).Elem(),\n", t.FullName(), a, t.Name)
+		if t.Kind == "record" {
+			fmt.Fprintf(&body, "\t%q: reflect.TypeOf((*%s.%s_PartialUpdate)(nil)).Elem(),\n", t.FullName()+"#patch", a, t.Name)
+		}
+	}
+	body.WriteString("}\n\n")
+	body.WriteString("var NewWithDefaults = map[string]func() any{\n")
+	for _, t := range s.Types {
+		if t.Kind == "record" && s.HasDefault(t) {
+			a := alias(s.GoPackagePath(t.Namespace))
+			fmt.Fprintf(&body, "\t%q: func() any { return %s.New%sWithDefaultValues() },\n", t.FullName(), a, t.Name)
+		}
+	}
+	body.WriteString("}\n")
+	fmt.Fprintf(&b, "// Code generated by the verif corpus emitter; DO NOT EDIT.\n\npackage %s\n\nimport (\n\t\"reflect\"\n\n", pkgName)
+	var paths []string
+	for p := range imports {
+		paths = append(paths, p)
+	}
+	sort.Strings(paths)
+	for _, p := range paths {
+		fmt.Fprintf(&b, "\t%s %q\n", imports[p], p)
+	}
+	b.WriteString(")\n\n")
+	b.WriteString(body.String())
+	return b.String()
+}
+
+// WriteSetRoot writes the types-only manifest, schema and registry for the root-module generator below dir.
+func (s *Schema) WriteSetRoot(dir string) error {
+	if err := os.MkdirAll(filepath.Join(dir, "reg"), 0o755); err != nil {
+		return err
+	}
+	typesOnly := *s
+	typesOnly.Resources = nil
+	m, err := typesOnly.ManifestRoot()
+	if err != nil {
+		return err
+	}
+	if err := os.WriteFile(filepath.Join(dir, "manifest.in.json"), m, 0o644); err != nil {
+		return err
+	}
+	sj, _ := json.MarshalIndent(&typesOnly, "", " ")
+	src := typesOnly.RegistrySourceRoot("reg") + "\nconst SchemaJSON = " + fmt.Sprintf("%q", string(sj)) + "\n"
+	return os.WriteFile(filepath.Join(dir, "reg", "registry.go"), []byte(src), 0o644)
 }
 
 // WriteSet writes manifest, schema and registry for one schema set below dir (dir = <work>/gen/<set name>).
